@@ -814,6 +814,83 @@ def r15_14(ctx, rep):
     no_stale_loop_variables(ctx, rep, "R15.14", MODEL, "the CasADi model")
 
 
+@SPEC.rule(
+    "R15.15",
+    "an eliminated constant assignment keeps its variable in the model: in the eliminate_constant_assignments pass every path from taking a "
+    "variable out of the algebraic-state table (`<table>.pop(name)`) to the end of that iteration passes `self.constants.append(<it>)` — the "
+    "equation is dropped on that path, so a variable that is in no category afterwards is a free symbol of the remaining equations",
+)
+def r15_15(ctx, rep):
+    R = "R15.15"
+    fn = simplify_fn(ctx, R)
+    blk = option_blocks(fn).get("eliminate_constant_assignments")
+    if blk is None:
+        raise MechanismMissing(R, "eliminate_constant_assignments block not found")
+    site = MODEL + ":Model._simplify_once"
+    loops = [lp for lp in ast.walk(blk) if isinstance(lp, ast.For) and norm(lp.iter) == "self.equations"]
+    if not loops:
+        raise MechanismMissing(R, "loop over self.equations not found in the eliminate_constant_assignments block")
+    lp = loops[0]
+    cfg = CFG(ast.Module(body=[lp], type_ignores=[]), R)
+    it = [x for x in cfg.nodes if x.kind == "iter" and x.ast is lp][0]
+    pops = [(x, x.ast.targets[0].id) for x in cfg.stmts() if isinstance(x.ast, ast.Assign) and isinstance(x.ast.targets[0], ast.Name) and isinstance(x.ast.value, ast.Call)
+            and isinstance(x.ast.value.func, ast.Attribute) and x.ast.value.func.attr == "pop"]
+    if len(pops) < 2:
+        raise MechanismMissing(R, "fewer than 2 `<var> = <table>.pop(<name>)` statements found in the pass")
+    for x, v in pops:
+        appends = {y.id for y in cfg.stmts() if any(isinstance(c.func, ast.Attribute) and c.func.attr == "append" and norm(c.func.value) == "self.constants"
+                                                   and c.args and is_name(c.args[0], v) for c in calls(y.ast))}
+        w = cfg.path(x.id, it.id, avoid=appends)
+        rep.ob(R, site, "`%s` is followed by its registration as a constant" % norm(x.ast)[:50], bool(appends) and w is None,
+               "after the variable was taken out of the algebraic states the iteration can end without `self.constants.append(%s)`: the variable "
+               "is then in no category, while equations and initial equations still refer to it" % v, path=cfg.describe(w) if w else "")
+
+
+@SPEC.rule(
+    "R15.16",
+    "protected variables stay: where _make_alias has to choose which of two algebraic variables is eliminated, the test that triggers the "
+    "exchange of the two roles asks for the canonical variable of the one that is eliminated in the default order (the second argument of "
+    "alias_relation.add) — when *its* class already has a state, input or parameter as canonical name, the default order would unseat that "
+    "name and delete a variable that must stay",
+)
+def r15_16(ctx, rep):
+    R = "R15.16"
+    fn = simplify_fn(ctx, R)
+    site = MODEL + ":Model._simplify_once._make_alias"
+    swaps = []
+    for st in ast.walk(fn):
+        if isinstance(st, ast.If):
+            for b in st.body:
+                if isinstance(b, ast.Assign) and isinstance(b.targets[0], ast.Tuple) and isinstance(b.value, ast.Tuple) and len(b.targets[0].elts) == 2 \
+                        and [norm(e) for e in b.targets[0].elts] == [norm(e) for e in reversed(b.value.elts)]:
+                    swaps.append((st, b))
+    if not swaps:
+        raise MechanismMissing(R, "the exchange of the two roles (`a, b = b, a` under a test) was not found in _simplify_once")
+    # the role that is eliminated: second argument of alias_relation.add(<kept>.name(), ['-' +] <eliminated>.name())
+    elim = set()
+    for c in ast.walk(fn):
+        if isinstance(c, ast.Call) and isinstance(c.func, ast.Attribute) and c.func.attr == "add" and norm(c.func.value).endswith("alias_relation") and len(c.args) == 2:
+            a = c.args[1]
+            if isinstance(a, ast.BinOp):
+                a = a.right
+            if isinstance(a, ast.Call) and isinstance(a.func, ast.Attribute) and a.func.attr == "name" and isinstance(a.func.value, ast.Name):
+                elim.add(a.func.value.id)
+    if len(elim) != 1:
+        raise MechanismMissing(R, "the eliminated role (second argument of alias_relation.add) is not a single local: %s" % sorted(elim))
+    e = list(elim)[0]
+    if not any(e in {norm(x) for x in b.targets[0].elts} for _st, b in swaps):
+        raise MechanismMissing(R, "no exchange involving the eliminated role `%s` found" % e)
+    for st, b in swaps:
+        if e not in {norm(x) for x in b.targets[0].elts}:
+            continue
+        asked = {c.args[0].func.value.id for c in ast.walk(st.test) if isinstance(c, ast.Call) and isinstance(c.func, ast.Attribute) and c.func.attr == "canonical_signed"
+                 and c.args and isinstance(c.args[0], ast.Call) and isinstance(c.args[0].func, ast.Attribute) and c.args[0].func.attr == "name"
+                 and isinstance(c.args[0].func.value, ast.Name)}
+        rep.ob(R, site, "the exchange is decided by the class of the variable to be eliminated", e in asked,
+               "the test in front of `%s` asks for the canonical variable of %s, not of `%s` (the one alias_relation.add would eliminate): a "
+               "class whose canonical name is a state/input/parameter is unseated and that variable deleted" % (norm(b)[:50], sorted(asked) or "nothing", e))
+
+
 # -- seeded variants ---------------------------------------------------------
 from ._mut import delete_stmt_where, replace_in_func, replace_stmt_where  # noqa: E402
 
